@@ -1259,10 +1259,8 @@ func ruleTranslatorBytes(w *World, r *Report, prop, rule string) {
 	n := 0
 	for _, f := range w.Funcs {
 		fname := w.FuncName(f)
-		if !strings.HasPrefix(fname, "pfcpiface.(*P4rtTranslator).") && !strings.HasPrefix(fname, "pfcpiface.") {
-			continue
-		}
-		if !strings.Contains(w.Pos(f.Pos()), "p4rt_translator.go") {
+		// the translator's methods (helpers they call that are new are expanded into them)
+		if !strings.HasPrefix(fname, "pfcpiface.(*P4rtTranslator).") {
 			continue
 		}
 		allInstrs(f, func(i ssa.Instruction) {
